@@ -4,7 +4,8 @@ The state invariant of the refinement proofs (between two pushes, i.e. outside a
 bitmap length = row count when nullable; offsets start at 0, never decrease and end at the child length;
 fixed-size children hold n entries per row; struct children all at the row count; per-variant counters =
 child lengths, type ids and dense offsets in range; dictionary index ↔ values, keys in range; view
-descriptors designate bytes of the buffer.
+descriptors designate bytes of the buffer, which stays below 4 GiB (`push_scalar_value` / `end_seq` refuse offsets
+and lengths beyond `i32::MAX`).
 -/
 namespace SaModel.Build
 open SaModel SaModel.Spec
@@ -62,13 +63,30 @@ def SafeL : BL → Prop
   | .cons b _ r => Safe b ∧ SafeL r
 end
 
+/-- is this a Utf8 / LargeUtf8 builder (the value builder `build_builder` means a dictionary to have)? -/
+def B.isUtf8B : B → Bool
+  | .bytes _ ty _ _ _ => isUtf8Ty ty
+  | _ => false
+
+/-- is this an integer leaf builder (the key builder of an Arrow dictionary)? -/
+def B.isIntLeaf : B → Bool
+  | .leaf _ (.int _) _ _ => true
+  | _ => false
+
+/-- values decoded = index entries: when the value builder of a dictionary is a Utf8 / LargeUtf8 builder, the
+values it holds are exactly the strings of the index, in insertion order (`values[index[s]] = s`).  Other value
+builders (`build_builder` accepts any type, e.g. `Dictionary(Int8, Date32)` stores parsed dates) are not constrained. -/
+def DictVals (vals : B) (index : List String) : Prop :=
+  vals.isUtf8B = true → dec vals = index.map fun s => LVal.str (strBytes s)
+
 mutual
 def WFB : B → Prop
   | .null _ _ => True
   | .unknownVariant _ => True
   | .leaf _ _ v vals => VLen v vals.length
   | .bytes _ _ v offs data => OffsOK offs data.length ∧ VLen v (offs.length - 1)
-  | .bytesView _ _ v views buf => VLen v views.length ∧ ∀ d ∈ views, (decodeView [buf] d).isOk = true
+  | .bytesView _ _ v views buf =>
+    VLen v views.length ∧ (∀ d ∈ views, (decodeView [buf] d).isOk = true) ∧ buf.length < 2 ^ 32
   | .fixedSizeBinary _ n len v buf _ => VLen v len ∧ buf.length = len * n
   | .list _ _ _ v offs el => OffsOK offs (dec el).length ∧ VLen v (offs.length - 1) ∧ WFB el
   | .fixedSizeList _ _ n len v _ el => VLen v len ∧ (dec el).length = len * n ∧ WFB el
@@ -79,7 +97,8 @@ def WFB : B → Prop
   | .dictionary _ idx vals index =>
     WFB idx ∧ WFB vals ∧ index.Nodup ∧
     (dec vals).length = index.length ∧
-    (∀ k ∈ dec idx, ∀ j : Int, k = .int j → 0 ≤ j ∧ j.toNat < index.length)
+    (∀ k ∈ dec idx, ∀ j : Int, k = .int j → 0 ≤ j ∧ j.toNat < index.length) ∧
+    DictVals vals index
   | .union _ fs types offs cur =>
     types.length = offs.length ∧ cur.length = fs.length ∧ WFU fs cur ∧
     (∀ to ∈ types.zip offs,
